@@ -40,6 +40,8 @@ class UserInterrupt(KeyboardInterrupt):
         self.tag = tag
 
 
+ON_CALL: list = []    # callbacks(tag) invoked whenever a chk-function starts executing (schedulers use it to let an
+# executor job complete WHILE a local sibling runs); reset() empties it
 KI_ENABLED = False      # set by the harnesses whose drivers are prepared for UserInterrupt (reset() leaves it alone)
 
 
@@ -91,6 +93,22 @@ def reset():
     CALLS.clear()
     FAIL.clear()
     EVENTS.clear()
+    ON_CALL.clear()
+
+
+class SyncExecutor(cf.Executor):
+    """an executor that finishes every job inside submit(): the future handed back is already done, so the library's
+    done-callback runs during add_done_callback, before the submitting node's run() returns"""
+    def submit(self, fn, /, *args, **kwargs):
+        fut = cf.Future()
+        fut.set_running_or_notify_cancel()
+        try:
+            r = fn(*args, **kwargs)
+        except BaseException as e:      # noqa
+            fut.set_exception(e)
+        else:
+            fut.set_result(r)
+        return fut
 
 
 class ManualExecutor(cf.Executor):
@@ -192,6 +210,8 @@ def exc_kind(e: BaseException):
 def chk(tag, k, args):
     """lin, but raising UserExc when an argument is negative: failure is decided by the arguments alone"""
     CALLS.append((tag, list(args)))
+    for h in list(ON_CALL):
+        h(tag)
     if any(a == -7 for a in args):
         raise UserReadiness(tag)     # the user's function raises the library's own ReadinessError type
     if any(a == -8 for a in args):
